@@ -557,7 +557,8 @@ impl FixtureDatabase {
                 }
 
                 // Then add fixtures imported into the conftest
-                if self.file_cache.contains_key(&conftest_path) {
+                // (the conftest may have been closed or evicted from the cache: it still exists)
+                if self.file_cache.contains_key(&conftest_path) || conftest_path.exists() {
                     let mut visited = HashSet::new();
                     let imported_fixtures =
                         self.get_imported_fixtures(&conftest_path, &mut visited);
